@@ -71,4 +71,15 @@ Section Confluence.
       destruct (pull_front s2 s t a e2 Hs Ht H2 T2) as [s2' [H2' Hl]].
       rewrite Hl. f_equal. apply (IH a s2' e1 e2); eauto.
   Qed.
+  (* no run is longer than a complete one *)
+  Theorem run_length_bound : forall s1 s e1, Inv s -> runs s1 s = Some e1 -> terminal e1 ->
+    forall s2 e2, runs s2 s = Some e2 -> length s2 <= length s1.
+  Proof.
+    intros s1 s e1 Hs H1 T1 s2. revert s1 s e1 Hs H1 T1.
+    induction s2 as [|t r2 IH]; simpl; intros s1 s e1 Hs H1 T1 e2 H2.
+    - apply le_0_n.
+    - destruct (step t s) as [a|] eqn:Ht; try discriminate.
+      destruct (pull_front s1 s t a e1 Hs Ht H1 T1) as [s1' [H1' Hl]].
+      rewrite Hl. apply le_n_S. apply (IH s1' a e1 (Inv_step _ _ _ Hs Ht) H1' T1 e2 H2).
+  Qed.
 End Confluence.
